@@ -256,6 +256,47 @@ func runC09(p *Program, r *Result) {
 				continue
 			}
 			ok, why := p.provablyASCII(fn, c.Common().Args[0], c.(ssa.Instruction), 0)
+			if !ok {
+				// mapped first, validated afterwards: the operand is provably ASCII wherever the
+				// result (or a string built from it) is put to use
+				var sinks []ssa.Instruction
+				seen := map[ssa.Value]bool{v: true}
+				work := []ssa.Value{v}
+				for len(work) > 0 {
+					cur := work[len(work)-1]
+					work = work[:len(work)-1]
+					for _, ref := range *cur.Referrers() {
+						switch u := ref.(type) {
+						case *ssa.DebugRef:
+						case *ssa.BinOp:
+							if u.Op == token.ADD {
+								if !seen[u] {
+									seen[u] = true
+									work = append(work, u)
+								}
+							} else if u.Op != token.EQL && u.Op != token.NEQ {
+								sinks = append(sinks, u)
+							}
+						case *ssa.Phi:
+							if !seen[u] {
+								seen[u] = true
+								work = append(work, u)
+							}
+						default:
+							sinks = append(sinks, ref)
+						}
+					}
+				}
+				all := len(sinks) > 0
+				for _, sk := range sinks {
+					if okS, _ := p.provablyASCII(fn, c.Common().Args[0], sk, 0); !okS {
+						all = false
+					}
+				}
+				if all {
+					ok, why = true, "the operand is validated before every use of the result"
+				}
+			}
 			if ok {
 				r.OK(fn.String(), key, r.pos(c), why)
 			} else {
